@@ -549,7 +549,7 @@ def gen_recipe(r, cfg=None, profile="mixed"):
         elif fam == "pool":
             op = r.choice(["MAX_POOL_2D", "AVERAGE_POOL_2D"])
             kh, kw = r.choice([(2, 2), (3, 3), (2, 2), (1, 1), (3, 2), (4, 4), (8, 8)])
-            sh, sw = r.choice([(1, 1), (2, 2), (2, 2), (1, 2), (3, 3)])
+            sh, sw = r.choice([(1, 1), (2, 2), (2, 2), (1, 2), (3, 3), (4, 4)])  # stride 4: average pool becomes a convolution
             pad = r.choice(["SAME", "VALID"])
             if pad == "VALID" and (kh > H or kw > W):
                 pad = "SAME"
